@@ -367,6 +367,18 @@ def connect_cases():
         pass
     if state.snapshot(g) != before:
         return "refused edge changed a Gfa holding an older placeholder: %s" % "; ".join(state.snap_diff(before, state.snapshot(g)))[:300]
+    # a line that takes the place of an unresolved placeholder and is then refused
+    g = gfapy.Gfa(vlevel=1)
+    for t in ["H\tVN:Z:2.0", "S\tA\t8\t*", "O\tgrp\tA+ e9+"]:
+        g.add_line(t)
+    before = state.snapshot(g)
+    try:
+        g.add_line("E\te9\tA+\tgrp+\t0\t2\t0\t2\t*")
+        return "edge onto a group accepted (placeholder case)"
+    except gfapy.Error:
+        pass
+    if state.snapshot(g) != before:
+        return "a refused edge that replaced an unresolved placeholder changed the Gfa: %s" % "; ".join(state.snap_diff(before, state.snapshot(g)))[:300]
     g = gfapy.Gfa(["S\ta\t*", "P\tp1\ta+\t*"], vlevel=1)
     before = state.snapshot(g)
     try:
